@@ -861,6 +861,43 @@ def undeclared_and_moved_family(ctx, n):
                 ctx.violation('view-vs-rules', {'text': text, 'cls': None, 'family': 'redeclared'}, '@namespace rules %r, mapping %r' % (rules_, view_), KNOWN_PRED)
         except Exception as e:  # noqa
             ctx.violation('negation-raises', {'text': text, 'cls': None}, '%s: %s' % (type(e).__name__, e), KNOWN_PRED)
+    # a prefix re-declared through insertRule (rule object or text, every index): accepted or refused, the mapping stays
+    # exactly the @namespace rules, every URI a selector uses stays declared, and the text reads back the same
+    for base in ('@namespace p "one"; p|a, x[p|b], p|*{l:0}', '@namespace p "one"; @namespace q "three"; @media tv{p|a{l:0}} q|b{l:0}', '@namespace p "one"; c{l:0}',
+                 '@namespace "one"; @namespace p "one2"; a:not(p|b){l:0}'):
+        for uri in ('two', 'one', 'three'):
+            for prefix in ('p', 'q', 'r'):
+                for form in ('object', 'text'):
+                    for idx in (0, 1, 2, None):
+                        impl.reset()
+                        case = {'text': base, 'insert': [prefix, uri, form, idx], 'cls': None, 'family': 'redeclare-at-index'}
+                        ctx.case(('redeclare-at-index', base, prefix, uri, form, idx))
+                        try:
+                            sheet = cssutils.parseString(base)
+                            before = (sheet.cssText, dict(sheet.namespaces.items()))
+                            rule = cssutils.css.CSSNamespaceRule(namespaceURI=uri, prefix=prefix) if form == 'object' else '@namespace %s "%s";' % (prefix, uri)
+                            refused = False
+                            try:
+                                sheet.insertRule(rule, idx) if idx is not None else sheet.insertRule(rule)
+                            except xml.dom.DOMException:
+                                refused = True
+                            rules_ = [(r.prefix, r.namespaceURI) for r in sheet.cssRules if r.type == r.NAMESPACE_RULE]
+                            view_ = dict(sheet.namespaces.items())
+                            after = (sheet.cssText, view_)
+                            used = {v[0] for sel in all_pairs_deep(sheet) for _, *v in [tuple(i) for i in sel] if isinstance(v[0], str) and v[0]}
+                            again = cssutils.parseString(sheet.cssText)
+                            pa, pb = all_pairs_deep(sheet), all_pairs_deep(again)
+                        except Exception as e:  # noqa
+                            ctx.violation('negation-raises', case, '%s: %s' % (type(e).__name__, e), KNOWN_PRED)
+                            continue
+                        if refused and after != before:
+                            ctx.violation('remove-used', case, 'the insertion was refused but the sheet changed: %r -> %r' % (before, after), KNOWN_PRED)
+                        elif dict(rules_) != view_ or len(dict(rules_)) != len(rules_):
+                            ctx.violation('view-vs-rules', case, '@namespace rules %r, mapping %r' % (rules_, view_), KNOWN_PRED)
+                        elif not used <= set(view_.values()):
+                            ctx.violation('used-undeclared', case, 'URIs in use %r, declared %r' % (sorted(used), view_), KNOWN_PRED)
+                        elif pa != pb:
+                            ctx.violation('reparse-pairs', case, 'sheet has %r; its text %r reads back as %r' % (pa, sheet.cssText.decode()[:200], pb), KNOWN_PRED)
     # prefixes are names as written (letter case matters); the first namespace of a sheet lands before every body rule
     for text, want in (('@namespace SVG "A"; @namespace svg "B"; SVG|circle, svg|rect, [SVG|href], SVG|*{l:0}', [('A', 'circle'), ('B', 'rect'), ('A', 'href'), ('A', '*')]),
                        ('@namespace Math "M"; Math|mi:not(Math|mo){l:0}', [('M', 'mi'), ('M', 'mo')])):
